@@ -40,7 +40,23 @@ const PROFILES: [(&str, [f32; 5]); 9] = [
     ("all-different", [0.1, 0.15, 0.2, 0.25, 0.3]),
 ];
 
+thread_local! {
+    /// when set, every build below is answered from this script (all draws of the generators are announced: hook H6)
+    static SCRIPT: std::cell::RefCell<Option<Vec<u32>>> = const { std::cell::RefCell::new(None) };
+}
+fn arm() {
+    SCRIPT.with(|s| {
+        if let Some(sc) = &*s.borrow() {
+            crate::script::begin(sc, 4096);
+        }
+    })
+}
+fn current_script() -> Value {
+    SCRIPT.with(|s| json!(*s.borrow()))
+}
+
 fn build_random(q: usize, depth: usize, prof: usize, seed: u64) -> Circuit {
+    arm();
     let p = PROFILES[prof].1;
     Circuit::random().seed(seed).qubits(q).depth(depth).p_cnot(p[0]).p_cz(p[1]).p_h(p[2]).p_s(p[3]).p_t(p[4]).build()
 }
@@ -53,7 +69,7 @@ fn distinct(qs: &[usize]) -> bool {
 pub fn judge(st: &mut Stats, job: &Job) {
     st.inc("cases");
     st.inc("evaluations");
-    let wit = || json!({"kind": "job", "job": format!("{:?}", job)});
+    let wit = || json!({"kind": "job", "job": format!("{:?}", job), "script": current_script()});
     match job {
         Job::Random(q, depth, prof, seed) => {
             let r = guarded(|| (build_random(*q, *depth, *prof, *seed), build_random(*q, *depth, *prof, *seed)));
@@ -90,7 +106,7 @@ pub fn judge(st: &mut Stats, job: &Job) {
             }
         }
         Job::HiddenShift(q, cd, nccz, seed) => {
-            let b = |s: u64| Circuit::random_hidden_shift().seed(s).qubits(*q).clifford_depth(*cd).n_ccz(*nccz).build();
+            let b = |s: u64| { arm(); Circuit::random_hidden_shift().seed(s).qubits(*q).clifford_depth(*cd).n_ccz(*nccz).build() };
             match guarded(|| (b(*seed), b(*seed))) {
                 Err(p) => st.violation(Violation { sig: format!("hidden-shift|panic|{}", p.rsplit(" @ ").next().unwrap_or("")), detail: p, witness: wit() }),
                 Ok(((c1, s1), (c2, s2))) => {
@@ -126,7 +142,7 @@ pub fn judge(st: &mut Stats, job: &Job) {
             }
         }
         Job::Gadget(q, depth, minw, maxw, denom, seed) => {
-            let b = |s: u64| Circuit::random_pauli_gadget().seed(s).qubits(*q).depth(*depth).min_weight(*minw).max_weight(*maxw).phase_denom(*denom).build();
+            let b = |s: u64| { arm(); Circuit::random_pauli_gadget().seed(s).qubits(*q).depth(*depth).min_weight(*minw).max_weight(*maxw).phase_denom(*denom).build() };
             match guarded(|| (b(*seed), b(*seed))) {
                 Err(p) => st.violation(Violation { sig: format!("gadget|panic|{}", p.rsplit(" @ ").next().unwrap_or("")), detail: p, witness: wit() }),
                 Ok((c1, c2)) => {
@@ -178,7 +194,7 @@ pub fn judge(st: &mut Stats, job: &Job) {
             }
         }
         Job::Stab(q, seed) => {
-            let b = |s: u64| EquatorialStabilizerStateBuilder::new().seed(s).qubits(*q).build::<quizx::vec_graph::Graph>();
+            let b = |s: u64| { arm(); EquatorialStabilizerStateBuilder::new().seed(s).qubits(*q).build::<quizx::vec_graph::Graph>() };
             match guarded(|| (b(*seed), b(*seed))) {
                 Err(p) => st.violation(Violation { sig: format!("stabiliser-state|panic|{}", p.rsplit(" @ ").next().unwrap_or("")), detail: p, witness: wit() }),
                 Ok((g1, g2)) => {
@@ -203,6 +219,69 @@ pub fn judge(st: &mut Stats, job: &Job) {
             }
         }
     }
+}
+
+/// E3 on one parameter point: every sequence of answers to the generator's announced draws is enumerated (the RNG is
+/// replaced through hook H6), and every resulting instance is judged like a seeded one (built twice from the same script)
+pub fn explore_job(st: &mut Stats, job: &Job, cap: usize) -> bool {
+    crate::script::install_source();
+    let mut scripts: Vec<Vec<u32>> = vec![];
+    let j2 = job.clone();
+    let (_, complete) = crate::script::explore(
+        4096,
+        usize::MAX,
+        cap,
+        || {
+            SCRIPT.with(|s| *s.borrow_mut() = None);
+            match &j2 {
+                Job::Random(q, depth, prof, _) => {
+                    let p = PROFILES[*prof].1;
+                    let _ = Circuit::random().seed(0).qubits(*q).depth(*depth).p_cnot(p[0]).p_cz(p[1]).p_h(p[2]).p_s(p[3]).p_t(p[4]).build();
+                }
+                Job::HiddenShift(q, cd, nccz, _) => {
+                    let _ = Circuit::random_hidden_shift().seed(0).qubits(*q).clifford_depth(*cd).n_ccz(*nccz).build();
+                }
+                Job::Gadget(q, depth, minw, maxw, denom, _) => {
+                    let _ = Circuit::random_pauli_gadget().seed(0).qubits(*q).depth(*depth).min_weight(*minw).max_weight(*maxw).phase_denom(*denom).build();
+                }
+                Job::Stab(q, _) => {
+                    let _ = EquatorialStabilizerStateBuilder::new().seed(0).qubits(*q).build::<quizx::vec_graph::Graph>();
+                }
+            }
+        },
+        |e| {
+            st.inc("transitions");
+            match e.end {
+                crate::script::RunEnd::Done(()) => scripts.push(e.script),
+                crate::script::RunEnd::DrawLimit => st.inc("pruned_draw_limit"),
+                crate::script::RunEnd::Panic(p) => st.violation(Violation { sig: format!("generator|panic|{}", p.rsplit(" @ ").next().unwrap_or("")), detail: p, witness: json!({"kind": "job", "job": format!("{:?}", job), "script": e.script}) }),
+            }
+        },
+    );
+    st.add("scripts", scripts.len() as u64);
+    let mut outcomes = BTreeSet::new();
+    for sc in scripts {
+        SCRIPT.with(|s| *s.borrow_mut() = Some(sc.clone()));
+        if std::env::var("C19_DEBUG").is_ok() {
+            eprintln!("{:?} script {:?}", job, sc);
+        }
+        judge(st, job);
+        // distinct outcomes (vacuity check): the instance as text
+        arm();
+        outcomes.insert(match job {
+            Job::Random(q, depth, prof, _) => build_random(*q, *depth, *prof, 0).to_qasm(),
+            Job::HiddenShift(q, cd, nccz, _) => format!("{:?}", Circuit::random_hidden_shift().seed(0).qubits(*q).clifford_depth(*cd).n_ccz(*nccz).build()),
+            Job::Gadget(q, depth, minw, maxw, denom, _) => format!("{:?}", Circuit::random_pauli_gadget().seed(0).qubits(*q).depth(*depth).min_weight(*minw).max_weight(*maxw).phase_denom(*denom).build()),
+            Job::Stab(q, _) => format!("{:?}", EquatorialStabilizerStateBuilder::new().seed(0).qubits(*q).build::<quizx::vec_graph::Graph>()),
+        });
+    }
+    st.add("distinct_outcomes", outcomes.len() as u64);
+    SCRIPT.with(|s| *s.borrow_mut() = None);
+    crate::script::remove_source();
+    if !complete {
+        st.inc("run_cap_hit");
+    }
+    complete
 }
 
 /// sweep seeds until every outcome of a tiny configuration has been produced; returns (seen, size, seeds used)
@@ -267,6 +346,56 @@ pub fn run(rep: &mut Report) {
         watch_end();
     });
     rep.absorb("parameter grids x seed prefix", &format!("random circuits (q 2..4, depth 0..6, 6 probability profiles incl. zeros), hidden shift (q 6{}, Clifford depth 0..3, CCZ 0..2), Pauli gadgets (q 2..4, all weight ranges, denominators 1..8), stabiliser states (q 1..4) x seeds 0..S", if quick { "" } else { ",8" }), false, Some(format!("seed prefix S = {} (random), fewer for the expensive generators: not all seeds", seeds)), t0, stats);
+    // E3: every answer sequence of the generators' draws on small parameter points
+    {
+        if let Err(e) = crate::script::calibrate() {
+            rep.machinery_errors.push(format!("scripted RNG calibration failed: {}", e));
+            return;
+        }
+        let t0 = Instant::now();
+        let mut pts: Vec<Job> = vec![];
+        for prof in 0..PROFILES.len() {
+            for (q, depth) in if quick { vec![(2usize, 3usize), (3, 2), (4, 1), (2, 4)] } else { vec![(2, 5), (3, 3), (4, 3), (5, 2), (3, 4)] } {
+                pts.push(Job::Random(q, depth, prof, 0));
+            }
+        }
+        for (cd, nccz) in if quick { vec![(0usize, 0usize), (1, 0), (0, 1), (2, 0)] } else { vec![(0, 0), (1, 0), (0, 1), (2, 0), (1, 1), (3, 0)] } {
+            pts.push(Job::HiddenShift(6, cd, nccz, 0));
+        }
+        for q in 2..=3usize {
+            for minw in 1..=q {
+                for maxw in minw..=q {
+                    for denom in if quick { vec![1usize, 2, 3, 4, 6] } else { vec![1, 2, 3, 4, 5, 6, 8] } {
+                        pts.push(Job::Gadget(q, 1, minw, maxw, denom, 0));
+                    }
+                }
+            }
+        }
+        pts.push(Job::Gadget(2, 2, 1, 2, 4, 0));
+        if !quick {
+            pts.push(Job::Gadget(3, 2, 2, 2, 4, 0));
+            pts.push(Job::Gadget(3, 2, 1, 3, 3, 0));
+            pts.push(Job::Gadget(4, 1, 1, 4, 4, 0));
+            pts.push(Job::Gadget(4, 1, 2, 3, 8, 0));
+        }
+        for q in 1..=(if quick { 4usize } else { 5 }) {
+            pts.push(Job::Stab(q, 0));
+        }
+        let results: Vec<(Stats, bool)> = {
+            use rayon::prelude::*;
+            pts.par_iter()
+                .map(|job| {
+                    let mut st = Stats::default();
+                    let c = explore_job(&mut st, job, 2_000_000);
+                    st.sample(1, || json!(format!("{:?}", job)));
+                    (st, c)
+                })
+                .collect()
+        };
+        let complete = results.iter().all(|r| r.1);
+        let stats = results.into_iter().map(|r| r.0).fold(Stats::default(), Stats::merge);
+        rep.absorb("every draw enumerated (E3)", &format!("{} parameter points (random circuits: 9 probability profiles x small (qubits, depth); hidden shift on 6 qubits with small Clifford depth / CCZ count; one- and two-gadget circuits on 2..4 qubits, every weight range, several denominators; stabiliser states): the generator's RNG is replaced and EVERY sequence of answers to its announced draws is run, every instance judged against the promise and rebuilt from the same answers", pts.len()), complete, if complete { None } else { Some("run cap 2000000 per point".into()) }, t0, stats);
+    }
     // outcome saturation
     let t0 = Instant::now();
     let mut st = Stats::default();
@@ -314,6 +443,14 @@ pub fn replay(w: &Value) -> Option<Violation> {
         Job::Stab(nums[0] as usize, nums[1])
     };
     let mut st = Stats::default();
-    judge(&mut st, &job);
+    if let Some(sc) = w["script"].as_array() {
+        crate::script::install_source();
+        SCRIPT.with(|s| *s.borrow_mut() = Some(sc.iter().map(|x| x.as_u64().unwrap() as u32).collect()));
+        judge(&mut st, &job);
+        SCRIPT.with(|s| *s.borrow_mut() = None);
+        crate::script::remove_source();
+    } else {
+        judge(&mut st, &job);
+    }
     st.viols.into_values().next().map(|(_, v)| v)
 }
